@@ -16,9 +16,10 @@ LEVEL_TEXT = ('in every crash state every payload still under files/ must still 
               'its destination; re-running a killed trash-empty / trash-rm from the crash state must reach the final state of the uncrashed run, and trash-empty after a killed '
               'trash-restore must leave files/ and info/ empty')
 LEVEL_NOTE = 'crash = process kill between two system calls; trusted: shim trace completeness for mutating calls'
-RULE = ('scenarios: entry kinds {file, deep dir, symlink->dir} x {1, 3 entries (+ a hand-written entry named n.trashinfo.bak for the purging commands)} x command {restore same volume, restore cross-volume, restore --overwrite onto an existing directory, empty, empty 0, empty -i (re-run with -i too), rm *} (+ restore --overwrite, multi-index '
+RULE = ('scenarios: entry kinds {file, deep dir, symlink->dir} x {1, 3 entries (+ a hand-written entry named n.trashinfo.bak for the purging commands)} x command {restore same volume, restore cross-volume, restore --overwrite onto an existing directory, empty, empty 0, empty -i (re-run with -i too), empty with two --trash-dir options, rm *} + two trashed links to one directory (+ restore --overwrite, multi-index '
         'restores in thorough); crash before each mutating syscall + after the last; non-trivial = crash state differs from initial state; distinct = (command, kind, count, operation at death)')
-CMDS = ['restore', 'restore-xvol', 'empty', 'empty0', 'rm-star', 'empty-i', 'restore-overwrite-dir']
+CMDS = ['restore', 'restore-xvol', 'empty', 'empty0', 'rm-star', 'empty-i', 'restore-overwrite-dir', 'empty-2td']
+T2 = '/home/u/T2'
 TD = scen.HOME_TRASH
 
 
@@ -34,6 +35,8 @@ def scenarios(tier):
                 if cmd == 'restore-overwrite-dir' and k != 'tree':
                     continue
                 out.append({'kind': k, 'n': n, 'cmd': cmd})
+    for cmd in ('rm-star', 'empty', 'empty0'):
+        out.append({'kind': 'ldir2', 'n': 3, 'cmd': cmd})          # two trashed links to one and the same directory (+ a file)
     return out
 
 
@@ -43,6 +46,8 @@ def make_world(s):
     B = '/mnt/v1/w' if s['cmd'] == 'restore-xvol' else '/home/u/w'
     for i in range(s['n']):
         k = s['kind'] if i == 0 else ('file', 'tree')[i % 2]
+        if s['kind'] == 'ldir2':
+            k = 'ldir' if i < 2 else 'file'
         scen.add_entry(W, '%s/e%d' % (B, i), k)
     return W
 
@@ -59,6 +64,20 @@ def setup(sb, s):
         r = sb.run(argv, cwd=B, env=env, now='2020-01-0%dT00:00:00' % (i + 1))
         if r.exit != 0:
             raise cell.HarnessError('HARNESS-SETUP put failed: %s' % r.err[-300:])
+    if s['cmd'] == 'empty-2td':
+        # a second trash directory, given with a second --trash-dir, holding one entry of each kind
+        for nm, body in (('two', None), ('twodir', 'd')):
+            os.makedirs(sb.root + T2 + '/files', exist_ok=True)
+            os.makedirs(sb.root + T2 + '/info', exist_ok=True)
+            if body is None:
+                with open(sb.root + T2 + '/files/' + nm, 'w') as f:
+                    f.write('payload in the second trash dir\n')
+            else:
+                os.makedirs(sb.root + T2 + '/files/' + nm + '/sub')
+                with open(sb.root + T2 + '/files/' + nm + '/sub/leaf', 'w') as f:
+                    f.write('leaf\n')
+            with open(sb.root + T2 + '/info/' + nm + '.trashinfo', 'w') as f:
+                f.write('[Trash Info]\nPath=/home/u/w/%s\nDeletionDate=2020-01-06T00:00:00\n' % nm)
     if s['cmd'] == 'restore-overwrite-dir':
         # a directory already stands at the original location (with a child of its own): --overwrite moves the trashed one INTO it
         os.makedirs(sb.root + B + '/e0')
@@ -83,7 +102,8 @@ def command(s, ctx):
         reply = '0-%d' % (s['n'] - 1) if (c == 'restore-multi' and s['n'] > 1) else '0'
         argv = ['trash-restore', '--sort', 'date'] + (['--overwrite'] if c in ('restore-overwrite', 'restore-overwrite-dir') else []) + ['/']
         return {'argv': argv, 'stdin': reply + '\n', 'cwd': '/', 'env': env}
-    argv = {'empty': ['trash-empty'], 'empty0': ['trash-empty', '0'], 'rm-star': ['trash-rm', '*'], 'empty-i': ['trash-empty', '-i']}[c]
+    argv = {'empty': ['trash-empty'], 'empty0': ['trash-empty', '0'], 'rm-star': ['trash-rm', '*'], 'empty-i': ['trash-empty', '-i'],
+            'empty-2td': ['trash-empty', '--trash-dir', TD, '--trash-dir', T2]}[c]
     return {'argv': argv, 'cwd': '/', 'env': env, 'now': '2024-05-06T07:08:09', 'stdin': 'y\n' if c == 'empty-i' else None}
 
 
@@ -104,6 +124,12 @@ def oracle(s, ctx, start, sb, r, at):
     for nm in pays:
         if nm in pays0 and (nm + '.trashinfo') in infos0 and (nm + '.trashinfo') not in infos:
             problems.append('payload-stranded-without-info:%s' % nm)
+    if s['cmd'] == 'empty-2td':
+        i_b, p_b = world.pairs(snap, T2)
+        i_a, p_a = world.pairs(start, T2)
+        for nm in p_b:
+            if nm in p_a and (nm + '.trashinfo') in i_a and (nm + '.trashinfo') not in i_b:
+                problems.append('payload-stranded-without-info:%s (second trash dir)' % nm)
     if s['cmd'].startswith('restore'):
         targets = range(s['n']) if s['cmd'] == 'restore-multi' else [0]
         for i in targets:
@@ -133,11 +159,18 @@ def oracle(s, ctx, start, sb, r, at):
             i2, p2 = world.pairs(fin, TD)
             if i2 or p2:
                 problems.append('re-run-does-not-complete-the-purge:%s' % (sorted(i2) + sorted(p2))[:3])
-        outside = world.diff(snap, fin, ignore=[TD])
+        if s['cmd'] == 'empty-2td':
+            i3, p3 = world.pairs(fin, T2)
+            if i3 or p3:
+                problems.append('re-run-does-not-complete-the-purge:%s (second trash dir)' % (sorted(i3) + sorted(p3))[:3])
+        outside = world.diff(snap, fin, ignore=[TD, T2])
         if outside:
             problems.append('re-run-touched-outside:%s' % outside[:3])
     if at is None:
         i2, p2 = infos, pays
+        if s['cmd'] == 'empty-2td':
+            i3, p3 = world.pairs(snap, T2)
+            i2, p2 = dict(i2, **i3), set(p2) | set(p3)
         if not s['cmd'].startswith('restore') and (i2 or p2):
             problems.append('uncrashed-purge-incomplete')
     if problems:
